@@ -21,6 +21,48 @@ CONTROLS = {"stop": "STOP", "start": "START", "run": "RUN", "abort": "ABORT", "r
 STATUS_OF = {"READY": "READIED", "START": "STARTED", "STOP": "STOPPED", "RUN": "RUNNING", "ABORT": "ABORTED"}
 
 
+def start_guards(ctx):
+    """Framer.makeRunner START/READY: entering is dominated by a truthy checkStart(); a failing check leaves STOPPED and runs
+    nothing (shared by C04 and C08)"""
+    ctx.rule("T1-start", "makeRunner START/READY: enterAll/recur dominated by truthy checkStart(); false => STOPPED")
+    mr = ctx.fn("framing", "Framer.makeRunner")
+    M = FuncView(ctx, mr)
+    mc = M.cfg
+    def has_cs(t):
+        return any(isinstance(x, ast.Call) and dotted(x.func) == "self.checkStart" for x in ast.walk(t))
+
+    def implies_cs(t):
+        """test true => checkStart() was called and truthy"""
+        if isinstance(t, ast.Call) and dotted(t.func) == "self.checkStart":
+            return True
+        if isinstance(t, ast.BoolOp) and isinstance(t.op, ast.And):
+            return any(implies_cs(v) for v in t.values)
+        return False
+    allcs = M.tests(has_cs)
+    ctx.floor("T1-start:checkStart-tests", len(allcs), 2)
+    for t in allcs:
+        ctx.check(implies_cs(t.ast.test), "T1-start", t.ast, "start/ready guard `%s` implies a truthy checkStart()" % src(t.ast.test),
+                  "the start (or ready) of a framer can be taken without its first-frame entry conditions having been checked "
+                  "at the moment of the attempt")
+    cs = [t for t in allcs if implies_cs(t.ast.test)]
+    yields = [n for n in mc.nodes if any(isinstance(x, ast.Yield) for x in mc.walk_node(n))]
+    enter = M.need(M.call_nodes("self.enterAll"), "self.enterAll() in makeRunner")
+    ctx.check(all(any(M.dominated_by_edge([e], t, "T") for t in cs) for e in enter), "T1-start", enter[0].ast,
+              "enterAll() dominated by truthy self.checkStart()",
+              "a framer must not be entered unless the entry conditions of its first frame's outline hold")
+    for t in cs:
+        fsucc = [b for b, lab in mc.succ[t.id] if lab == "F"]
+        r = mc.reachable(fsucc[0], removed_nodes=[y.id for y in yields]) if fsucc else set()
+        calls_bad = [i for i in r if any(isinstance(x, ast.Call) and suffix_match(call_name(x), (
+            "self.enterAll", "self.recur", "self.segue", "self.enter")) for x in mc.walk_node(mc.nodes[i]))]
+        st = [i for i in r if isinstance(mc.nodes[i].ast, ast.Assign) and dotted(mc.nodes[i].ast.targets[0]) == "self.status"]
+        ok = not calls_bad and bool(st) and all(dotted(mc.nodes[i].ast.value) == "STOPPED" for i in st)
+        ctx.check(ok, "T1-start", t.ast, "checkStart() false => status = STOPPED, no enter/recur",
+                  "a start or ready whose first-frame conditions fail must leave the tasker stopped and "
+                  "run none of its actions")
+    return mr, M
+
+
 def check(ctx):
     repo = ctx.repo
     ctx.rule("T6-want", "Want<X>.action: every path through the taskers loop assigns tasker.desire = <X>; "
@@ -28,7 +70,6 @@ def check(ctx):
     ctx.rule("T6-fiat", "Fiat<X>.action: sends <X> to tasker.runner and returns status == <X>ED")
     ctx.rule("T6-names", "builder control words -> actor names all exist in the registrar passed to Act")
     ctx.rule("T6-contexts", "Want._resolve contexts=[ACTIVE, INACTIVE]; Fiat._resolve contexts=[SLAVE]")
-    ctx.rule("T1-start", "makeRunner START/READY: enterAll/recur dominated by truthy checkStart(); false => STOPPED")
     ctx.rule("T6-fsm", "every control branch of makeRunner distinguishes running, stopped/readied and other status")
 
     want = ctx.cls("wanting", "Want")
@@ -60,6 +101,19 @@ def check(ctx):
             ok = all(any(i in {s.id for s in stores} for i in p[1:-1]) for p in paths if len(p) > 1) and bool(paths)
         ctx.check(ok, "T6-want", act, "%s.action: tasker.desire = %s for each tasker" % (cname, const),
                   "bid %s must set the desire of every target tasker to %s and to nothing else" % (word, const))
+        # a period given with the bid (literal or from a share) replaces the tasker's period -- including 0.0 ("every tick")
+        ps = [n for n in V.stores("period") if isinstance(n.ast, ast.Assign) and dotted(n.ast.targets[0]) == "tasker.period"]
+        takes_period = "period" in [a.arg for a in act.args.args + act.args.kwonlyargs]
+        if not takes_period and not ps:
+            continue        # stop / abort bids carry no period
+        okp = bool(ps)
+        for pn in ps:
+            fs = V.facts(pn)
+            okp = okp and "period is not None" in fs and not any(f in fs for f in ("period", "period > 0", "period > 0.0", "period != 0", "period != 0.0"))
+            okp = okp and src(pn.ast.value).replace(" ", "") in ("max(0.0,period)", "max(0,period)", "abs(period)")
+        ctx.check(okp, "T6-want", act, "%s.action: `tasker.period = max(0.0, period)` exactly when a period was given (period is not None)" % cname,
+                  "a bid that carries a period must change the tasker's period from its next reschedule; testing the period for "
+                  "truth (or > 0) drops a bid to period 0.0, so the tasker keeps its old grid instead of running every tick")
     for word, const in CONTROLS.items():
         cname = "Fiat" + word.capitalize()
         c = fm.get(cname)
@@ -147,42 +201,7 @@ def check(ctx):
     ctx.check(bool(ctest) and any(T.dominated_by_edge([r], ctest[0], "T") for r in raises), "T6-contexts", rt,
               "resolveTasker raises when schedule not in contexts", "context restriction must be enforced")
 
-    # makeRunner START / READY
-    mr = ctx.fn("framing", "Framer.makeRunner")
-    M = FuncView(ctx, mr)
-    mc = M.cfg
-    def has_cs(t):
-        return any(isinstance(x, ast.Call) and dotted(x.func) == "self.checkStart" for x in ast.walk(t))
-
-    def implies_cs(t):
-        """test true => checkStart() was called and truthy"""
-        if isinstance(t, ast.Call) and dotted(t.func) == "self.checkStart":
-            return True
-        if isinstance(t, ast.BoolOp) and isinstance(t.op, ast.And):
-            return any(implies_cs(v) for v in t.values)
-        return False
-    allcs = M.tests(has_cs)
-    ctx.floor("T1-start:checkStart-tests", len(allcs), 2)
-    for t in allcs:
-        ctx.check(implies_cs(t.ast.test), "T1-start", t.ast, "start/ready guard `%s` implies a truthy checkStart()" % src(t.ast.test),
-                  "the start (or ready) of a framer can be taken without its first-frame entry conditions having been checked "
-                  "at the moment of the attempt")
-    cs = [t for t in allcs if implies_cs(t.ast.test)]
-    yields = [n for n in mc.nodes if any(isinstance(x, ast.Yield) for x in mc.walk_node(n))]
-    enter = M.need(M.call_nodes("self.enterAll"), "self.enterAll() in makeRunner")
-    ctx.check(all(any(M.dominated_by_edge([e], t, "T") for t in cs) for e in enter), "T1-start", enter[0].ast,
-              "enterAll() dominated by truthy self.checkStart()",
-              "a framer must not be entered unless the entry conditions of its first frame's outline hold")
-    for t in cs:
-        fsucc = [b for b, lab in mc.succ[t.id] if lab == "F"]
-        r = mc.reachable(fsucc[0], removed_nodes=[y.id for y in yields]) if fsucc else set()
-        calls_bad = [i for i in r if any(isinstance(x, ast.Call) and suffix_match(call_name(x), (
-            "self.enterAll", "self.recur", "self.segue", "self.enter")) for x in mc.walk_node(mc.nodes[i]))]
-        st = [i for i in r if isinstance(mc.nodes[i].ast, ast.Assign) and dotted(mc.nodes[i].ast.targets[0]) == "self.status"]
-        ok = not calls_bad and bool(st) and all(dotted(mc.nodes[i].ast.value) == "STOPPED" for i in st)
-        ctx.check(ok, "T1-start", t.ast, "checkStart() false => status = STOPPED, no enter/recur",
-                  "a start or ready whose first-frame conditions fail must leave the tasker stopped and "
-                  "run none of its actions")
+    mr, M = start_guards(ctx)
     # fsm exhaustiveness
     for name in ("RUN", "READY", "START", "STOP"):
         ts = M.tests(lambda t, name=name: isinstance(t, ast.Compare) and len(t.ops) == 1 and isinstance(t.ops[0], ast.Eq)
